@@ -102,6 +102,7 @@ var directedClasses = []directedClass{
 	{"unknown-conversion-step", []string{"step-only", "step-first", "step-middle", "step-last", "step-twice"}},
 	{"impossible-track-count", []string{"track-0", "track-negative", "track-not-a-number", "track-beyond-header"}},
 	{"unwritable-output", []string{"out-text-parse", "out-text-conv-degree", "out-text-conv-syllable", "out-write", "out-write-event", "out-write-parse", "out-write-conv", "out-info-attr-list", "out-info-attr-describe", "out-info-chord-list", "out-info-chord-describe", "out-info-key-list", "out-info-key-describe", "out-info-key-conv", "out-gen-attr"}},
+	{"describe-target-not-a-chord", []string{"target-rest", "target-rest-with-duration", "target-two-chords", "target-rest-then-chord", "target-empty", "target-comment", "target-garbage"}},
 	{"inconsistent-dictionary", []string{"dict-write", "dict-write-event", "dict-write-parse", "dict-write-conv", "dict-chord-describe", "dict-attr-describe"}},
 }
 
@@ -289,6 +290,20 @@ func checkC09Directed(c C09Directed) *Violation {
 			other = SItem{Deg: SDeg{Head: "2"}, Vals: []SVal{{Num: "1"}}}
 		}
 		sent = append(sent[:at+1], append([]SItem{other}, sent[at+1:]...)...)
+	case "describe-target-not-a-chord":
+		// `info chord describe -t` asks for one chord: a rest, two chords, nothing at all are not one
+		tg := map[string][]string{
+			"target-rest":               {"R", "R ", " R"},
+			"target-rest-with-duration": {"R[2]", "R[1/2,1]", "R[1]{bpm=90}"},
+			"target-two-chords":         {"C G", "Cm7[1] F[1]", "C\nG"},
+			"target-rest-then-chord":    {"R C", "R[1] Dm", "C R"},
+			"target-empty":              {"", " ", "\n"},
+			"target-comment":            {"; C", ";\n"},
+			"target-garbage":            {"[1]", "{key=C}", "/E", "_m7", "]"},
+		}[c.Channel]
+		target := pickFrom(seed, tg)
+		res := Run{Argv: []string{"info", "chord", "describe", "-t", target}}.Exec()
+		return mustFail(res, fmt.Sprintf("info chord describe -t %q", target))
 	case "empty-piece":
 		switch c.Channel {
 		case "text-degree", "text-syllable":
